@@ -360,6 +360,11 @@ impl Cartesian<'_> {
             return Err("Collision detected".into());
         }
 
+        if !self.include_linear_interpolation {
+            // Interpolated poses are checked above but not included in the output.
+            trace.retain(|step| !step.flags.contains(PathFlags::LIN_INTERP));
+        }
+
         Ok(trace)
     }
 
